@@ -199,6 +199,7 @@ class Tracer:
             nl0 = len(ep.kernel.log)
             sent0 = len(w.sent)
             nstat = len(ep.status_replies)
+            ncont = len(ep.contained)
             send_fail = any(i in w.send_fail_at for i in range(w.send_calls, w.send_calls + 8))
             ok = orig(datagram=datagram, event=event, control=control)
             post_objs = list(ep.controller.ike_sas)
@@ -252,7 +253,8 @@ class Tracer:
                     toks += [kind] + post + res + [str(len(nl))] + [x for op in nl for x in op]
             line = ' '.join(toks)
             # ---- expected
-            exp_t = ['1' if not ok else '0', str(ran), str(len(post_objs))]
+            interrupted = (not ok) or len(ep.contained) > ncont
+            exp_t = ['1' if interrupted else '0', str(ran), str(len(post_objs))]
             for s in post_objs:
                 exp_t += tr.r_sa(s)
             sent = w.sent[sent0:]
@@ -277,7 +279,7 @@ class Tracer:
                     exp_t += [d['my_spi'] or '-', str(int(IKESA.IkeSa.State[d['state']]))]
             else:
                 exp_t += ['0']
-            tr.lines.append((line, ' '.join(exp_t), {'ep': ep.name, 'ok': ok, 'now': w.now, 'event': 'dg' if datagram is not None else
+            tr.lines.append((line, ' '.join(exp_t), {'ep': ep.name, 'ok': not interrupted, 'now': w.now, 'event': 'dg' if datagram is not None else
                                                      ('xfrm' if event is not None else ('ctl' if control else 'tick'))}))
             return ok
         ep.step = step
